@@ -85,6 +85,14 @@ def show_slice(kind, s):
     return show(kind, ts, d)
 
 
+def public_dt(s):
+    """sample period of a continuous channel through the public interface only"""
+    ts = np.asarray(s.timestamps)
+    if len(ts) >= 2:
+        return int(ts[1]) - int(ts[0])
+    return int(round(1e9 / float(s.sample_rate)))
+
+
 def src_tokens(e):
     if e["kind"] == "cont":
         return f"contv {e['start']} {e['dt']} {enc_list(e['data'])}"
@@ -332,7 +340,7 @@ def impl(case):
             from lumicks.pylake.channel import Continuous
 
             s = Continuous.from_dataset(FakeDset({"Start time (ns)": 0, "Sample rate (Hz)": 1e9 / case["dt"]}, 3))
-            return [str(int(s._src.dt))]
+            return [str(public_dt(s))]
         if k == "omit":
             return [_omit_impl(case)]
         if k == "file":
@@ -400,7 +408,7 @@ def _file_impl(case):
                     if kind == "dt":
                         g, n = payload.split("/")
                         s = f[g][n]
-                        answers.append(str(int(s._src.dt)))
+                        answers.append(str(public_dt(s)))
                         obs["rates"][payload] = float(s.sample_rate)
                     elif kind in ("cal", "calslice"):
                         path, w = payload
@@ -442,9 +450,9 @@ def _file_impl(case):
                             s = new[g][n]
                             txt = show_slice(e["kind"], s)
                             if e["kind"] == "cont":
-                                txt = f"cont {int(s._src.start)} {int(s._src.dt)} " + txt.split(" ", 1)[1]
+                                txt = f"cont {int(s.start)} {public_dt(s)} " + txt.split(" ", 1)[1]
                             elif e["kind"] == "tags":
-                                txt = f"tags {int(s._src.start)} {int(s._src.stop)} " + txt.split(" ", 1)[1]
+                                txt = f"tags {int(s.start)} {int(s.stop)} " + txt.split(" ", 1)[1]
                             answers.append(txt)
                         else:
                             answers.append("absent")
